@@ -602,8 +602,15 @@ def replace_star_imports(codeblock, params=None):
             else:
                 module = ModuleHandle(imp.split.module_name)
                 try:
-                    with ImportPathForRelativeImportsCtx(codeblock):
-                        exports = module.exports
+                    if filename:
+                        # The module name is resolved with the directory of
+                        # the file first on sys.path: the same name can mean
+                        # another module for the next file we process.
+                        handle_ctx = ModuleHandle._fresh_cache_ctx()
+                    else:
+                        handle_ctx = NullCtx()
+                    with ImportPathForRelativeImportsCtx(codeblock), handle_ctx:
+                        exports = ModuleHandle(module.name).exports
                 except Exception as e:
                     logger.warning(
                         "%s: couldn't import '%s' to enumerate exports, "
